@@ -294,7 +294,7 @@ META = {
                    "spline is requested (s defaults to 0); SciPy's own numerics are an assumption. Weaver level: "
                    "interpolate(n) yields n equally spaced points with the same end points; explicit grids with a "
                    "different end point (symbolic offset != 0) raise ValueError.",
-    "bounds": {"quick": "series of 2..4 points, new grids of 1..3 points; Weaver: 4 points, n in 2..5",
+    "bounds": {"quick": "series of 2..4 points, new grids of 1..3 points; Weaver: 4 points, n in 2..5; integer-typed series (x omitted / list of ints / int64) with explicit real grids of 3..4 points",
                "thorough": "series of 2..5 (splines 4..7) points, grids of 1..4 points; Weaver: 4..6 points, n up to 8"},
     "outside": ["'to rounding' statements about CubicSpline/FITPACK (checked only in the float replay of the stubbed "
                 "families, not solver-decided)", "longer series", "float rounding"],
